@@ -366,7 +366,10 @@ func (c *Ctx) checkAttachmentLinking() {
 				}
 				a := core.NormCond(ifi.Cond)
 				for _, v := range []ssa.Value{a.X, a.Y} {
-					if v != nil && isLenOf(func(x ssa.Value) bool { return core.Strip(x) == ssa.Value(attParam) })(v) {
+					// len(attachmentURLs), or len of a list derived from it (ids extracted by a helper)
+					if v != nil && isLenOf(func(x ssa.Value) bool {
+						return core.Strip(x) == ssa.Value(attParam) || derivesAny(x, func(y ssa.Value) bool { return y == ssa.Value(attParam) })
+					})(v) {
 						return true
 					}
 				}
